@@ -28,22 +28,54 @@ from naunet.templateloader import TemplateLoader  # noqa: E402
 nw.tqdm = lambda it, **kw: it
 tlmod.tqdm = lambda it, **kw: it
 
+R = Reaction
+T = ReactionType
+
+
+def network(kind):
+    lists = dict(elements=["e", "H", "He", "C", "O"], pseudo_elements=["CR", "Photon"])
+    if kind == "empty":
+        return Network(**lists)
+    if kind == "single":
+        net = Network(**lists)
+        net.add_reaction(R(["H", "CR"], ["H"], alpha=1.0, reaction_type=T.GAS_COSMICRAY))
+        return net
+    if kind == "grain":
+        net = Network(grain_model="hh93", **lists)
+        for r in (R(["C", "O"], ["CO"], alpha=1e-10, reaction_type=T.GAS_TWOBODY),
+                  R(["CO"], ["#CO"], alpha=1.0, reaction_type=T.GRAIN_FREEZE),
+                  R(["#CO"], ["CO"], alpha=1.0, reaction_type=T.GRAIN_DESORB_THERMAL),
+                  R(["e-", "GRAIN0"], ["GRAIN-"], alpha=1.0, reaction_type=T.GRAIN_ECAPTURE),
+                  R(["C+", "GRAIN-"], ["C", "GRAIN0"], alpha=1.0, reaction_type=T.GRAIN_RECOMINE)):
+            net.add_reaction(r)
+        return net
+    # four species; "thermal" adds the gas temperature (two cooling processes): NEQUATIONS = NSPECIES + 1
+    net = Network(cooling=["CIC_HI", "RC_HII"], **lists) if kind == "thermal" else Network(**lists)
+    net.add_reaction(R(["H", "H"], ["H2"], alpha=1e-17, reaction_type=T.GAS_TWOBODY))
+    net.add_reaction(R(["H2", "CR"], ["H", "H"], alpha=1.0, reaction_type=T.GAS_COSMICRAY))
+    net.add_reaction(R(["H", "CR"], ["H+", "e-"], alpha=0.5, reaction_type=T.GAS_COSMICRAY))
+    net.add_reaction(R(["H+", "e-"], ["H"], alpha=3e-12, beta=-0.7, reaction_type=T.GAS_TWOBODY))
+    return net
+
+
+# the generated Solve is a template: render it for several KINDS of network, not just one
 VARIANTS = [
-    ("cvode_dense", "cvode", "dense", "cpu"),
-    ("cvode_sparse", "cvode", "sparse", "cpu"),
-    ("cvode_cusparse", "cvode", "cusparse", "gpu"),
-    ("odeint", "odeint", "rosenbrock4", "cpu"),
+    ("cvode_dense", "cvode", "dense", "cpu", "thermal"),
+    ("cvode_sparse", "cvode", "sparse", "cpu", "thermal"),
+    ("cvode_cusparse", "cvode", "cusparse", "gpu", "thermal"),
+    ("odeint", "odeint", "rosenbrock4", "cpu", "thermal"),
+    ("cvode_dense_plain", "cvode", "dense", "cpu", "plain"),
+    ("cvode_dense_single", "cvode", "dense", "cpu", "single"),
+    ("cvode_dense_empty", "cvode", "dense", "cpu", "empty"),
+    ("cvode_dense_grain", "cvode", "dense", "cpu", "grain"),
+    ("cvode_sparse_grain", "cvode", "sparse", "cpu", "grain"),
+    ("cvode_cusparse_plain", "cvode", "cusparse", "gpu", "plain"),
+    ("odeint_plain", "odeint", "rosenbrock4", "cpu", "plain"),
+    ("odeint_single", "odeint", "rosenbrock4", "cpu", "single"),
 ]
 
-for name, solver, method, device in VARIANTS:
-    # four species plus the gas temperature (two cooling processes): NEQUATIONS = NSPECIES + 1
-    net = Network(elements=["e", "H", "He", "C", "O"], pseudo_elements=["CR", "Photon"], cooling=["CIC_HI", "RC_HII"])
-    net.add_reaction(Reaction(["H", "H"], ["H2"], alpha=1e-17, reaction_type=ReactionType.GAS_TWOBODY))
-    net.add_reaction(Reaction(["H2", "CR"], ["H", "H"], alpha=1.0, reaction_type=ReactionType.GAS_COSMICRAY))
-    net.add_reaction(Reaction(["H", "CR"], ["H+", "e-"], alpha=0.5, reaction_type=ReactionType.GAS_COSMICRAY))
-    net.add_reaction(
-        Reaction(["H+", "e-"], ["H"], alpha=3e-12, beta=-0.7, reaction_type=ReactionType.GAS_TWOBODY)
-    )
+for name, solver, method, device, kind in VARIANTS:
+    net = network(kind)
     tl = TemplateLoader(solver, method, device)
     with contextlib.redirect_stdout(io.StringIO()):
         tl.render("c19sim", net, path=os.path.join(out, name), save=True)
